@@ -298,6 +298,28 @@ def run_case(case, ctx):
         if d.stream is not new:
             ctx.viol(f"stream-getter-after-repoint:{cls}", info)
             return
+    # ---- a refused stream assignment (not a stream) changes nothing: the draws go on as those of an undisturbed twin
+    for pre in (1, 2):
+        sa_, sb_ = CountingStream(seed + 3), CountingStream(seed + 3)
+        da_, db_ = _mk(cls, sa_, args), _mk(cls, sb_, args)
+        for _ in range(pre):
+            da_.draw(); db_.draw()
+        for bogus in ("not a stream", None, 5):
+            try:
+                da_.stream = bogus
+                ctx.viol(f"non-stream-accepted-as-stream:{cls}", {**info, "value": repr(bogus)})
+                return
+            except Exception:
+                pass
+        ctx.count("refused_stream_assignments", 3)
+        if da_.stream is not sa_:
+            ctx.viol(f"stream-getter-after-repoint:{cls}", {**info, "note": "after a refused assignment"})
+            return
+        for k in range(10):
+            a, b = da_.draw(), db_.draw()
+            if fx(a) != fx(b):
+                ctx.viol(f"refused-stream-assignment-changed-the-draws:{cls}", {**info, "pre_draws": pre, "draw_index": k, "got": fx(a), "twin": fx(b)})
+                return
     # ---- the same stream object re-seeded and assigned again (what a model does between replications with long-lived
     # distribution objects): the draws that follow equal those of a fresh instance on an equally seeded stream
     for pre in (1, 2, 3):
